@@ -77,6 +77,7 @@ struct End {
 	int64_t last_r_activity = 0, last_w_activity = 0;
 	int n_timeout_r = 0, n_timeout_w = 0;
 	size_t out_min_since_cb = 0;
+	bool out_low_seen_since_cb = false;	// a drain since the last write callback left the output at or below the low write watermark in force at that moment
 	bool low_changed = false;
 	bool werr = false;		// a write error / EOF was reported: the direction is never enabled again	// the application changed the read low watermark: a read callback already queued may see less	// smallest output length seen since the previous write callback
 	bool paused = false;
@@ -242,6 +243,7 @@ static void outbuf_cb(struct evbuffer *b, const struct evbuffer_cb_info *info, v
 	if (info->n_deleted || info->orig_size == 0 || !x.is_sock) { x.w_start = now_us(); x.w_due_seen = 0; }
 	size_t l = evbuffer_get_length(b);
 	if (l < x.out_min_since_cb) x.out_min_since_cb = l;
+	if (info->n_deleted && l <= x.wlow) x.out_low_seen_since_cb = true;
 }
 
 static bool cb_guard(End &x, const char *what) {
@@ -316,8 +318,11 @@ static void write_cb(struct bufferevent *bev, void *arg) {
 	if (!cb_guard(x, "write")) return;
 	x.n_writecb++;
 	if (x.connecting && x.n_connected == 0) V("C19", "C19.write-before-connected", "end %d: write callback before BEV_EVENT_CONNECTED", x.id);
-	if (len > x.wlow && x.out_min_since_cb > x.wlow) V("C18", "C18.write-above-low-watermark", "end %d: write callback although the output buffer never dropped to the low watermark %zu (now %zu, minimum since the last callback %zu)", x.id, x.wlow, len, x.out_min_since_cb);
+	// a deferred write callback is queued when a drain leaves the output at or below the low watermark in force at
+	// that moment; the application may lower the watermark before the queued callback runs
+	if (len > x.wlow && x.out_min_since_cb > x.wlow && !x.out_low_seen_since_cb) V("C18", "C18.write-above-low-watermark", "end %d: write callback although the output buffer never dropped to the low watermark %zu (now %zu, minimum since the last callback %zu)", x.id, x.wlow, len, x.out_min_since_cb);
 	x.out_min_since_cb = len;
+	x.out_low_seen_since_cb = false;
 }
 static void event_cb(struct bufferevent *bev, short what, void *arg) {
 	End &x = R->e[(int)(intptr_t)arg];
@@ -333,9 +338,27 @@ static void event_cb(struct bufferevent *bev, short what, void *arg) {
 		x.r_start = x.w_start = now_us();
 	}
 	// deferred event callbacks merge what became pending: a read and a write timeout can arrive as one event
+	// ... and so can a timeout and an EOF/error: BEV_EVENT_EOF|READING|WRITING (a pair partner's flush(FINISHED) of both
+	// directions) merged with TIMEOUT|READING does not say which direction timed out. Then the timeout is attributed to
+	// the directions it can belong to (a timeout set and elapsed, the direction enabled by the application and disabled
+	// by the library); if there is none the event is judged as it stands.
+	bool tmo_dir[2] = {true, true};
+	if ((what & BEV_EVENT_TIMEOUT) && (what & (BEV_EVENT_EOF | BEV_EVENT_ERROR)) && (what & BEV_EVENT_READING) && (what & BEV_EVENT_WRITING)) {
+		short en_now = bufferevent_get_enabled(x.bev);
+		bool can[2];
+		for (int dir = 0; dir < 2; dir++) {
+			bool rd = dir == 0;
+			short bit = rd ? EV_READ : EV_WRITE;
+			int64_t T = rd ? x.rt_us : x.wt_us;
+			int64_t last = rd ? x.last_r_activity : x.last_w_activity;
+			can[dir] = (!rd && x.connecting && x.n_connected == 0) || (T > 0 && now_us() - last >= T && (x.enabled & bit) && !(en_now & bit));
+		}
+		if (can[0] || can[1]) { tmo_dir[0] = can[0]; tmo_dir[1] = can[1]; probe("timeout-merged-with-eof-or-error"); }
+	}
 	for (int dir = 0; dir < 2 && (what & BEV_EVENT_TIMEOUT); dir++) {
 		bool rd = dir == 0;
 		if (!(what & (rd ? BEV_EVENT_READING : BEV_EVENT_WRITING))) continue;
+		if (!tmo_dir[dir]) continue;
 		R->timeouts_seen++;
 		int64_t T = rd ? x.rt_us : x.wt_us;
 		int64_t last = rd ? x.last_r_activity : x.last_w_activity;
